@@ -62,6 +62,34 @@ var requestSpecs = []layerSpec{
 			"pre[0]":  {"f:ID[7:0]"}, "pre[1]": {"f:ID[15:8]"}, "pre[2]": {"f:ID[23:16]"}, "pre[3]": {"f:ID[31:24]"},
 			"pre[4]": {"<unset>", "f:Handle[7:0]"},
 		}},
+	// a flag of the request decides a bit or a byte: per value of the flag
+	{Pkg: "pkg/ipmi", Type: "GetChannelAuthenticationCapabilitiesReq", Method: "SerializeTo", Shape: "extended data requested", Bools: map[string]bool{"ExtendedData": true}, Widths: map[string]int{"Channel": 4, "MaxPrivilegeLevel": 4}, Ref: "IPMI v2.0 §22.13 (bit 7: 1b = get IPMI v2.0+ extended data)",
+		Want: map[string][]string{"pre[0]": {"{0b1000,f:Channel[3:0]}"}}},
+	{Pkg: "pkg/ipmi", Type: "GetChannelAuthenticationCapabilitiesReq", Method: "SerializeTo", Shape: "v1.5 data only", Bools: map[string]bool{"ExtendedData": false}, Widths: map[string]int{"Channel": 4, "MaxPrivilegeLevel": 4}, Ref: "IPMI v2.0 §22.13 (bit 7: 0b = backward compatible)",
+		Want: map[string][]string{"pre[0]": {"f:Channel[3:0]"}}},
+	{Pkg: "pkg/ipmi", Type: "AuthenticationPayload", Method: "Serialise", Shape: "wildcard", Bools: map[string]bool{"Wildcard": true}, Widths: map[string]int{"Algorithm": 6}, Ref: "IPMI v2.0 §13.17 (payload length 00h = any algorithm)",
+		Want: map[string][]string{"app[3]": {"0"}, "app[4]": {"0"}}},
+	{Pkg: "pkg/ipmi", Type: "AuthenticationPayload", Method: "Serialise", Shape: "specific algorithm", Bools: map[string]bool{"Wildcard": false}, Widths: map[string]int{"Algorithm": 6}, Ref: "IPMI v2.0 §13.17 (payload length 08h, algorithm in byte 5)",
+		Want: map[string][]string{"app[3]": {"8"}, "app[4]": {"f:Algorithm[5:0]"}}},
+	{Pkg: "pkg/ipmi", Type: "IntegrityPayload", Method: "Serialise", Shape: "wildcard", Bools: map[string]bool{"Wildcard": true}, Widths: map[string]int{"Algorithm": 6}, Ref: "IPMI v2.0 §13.17",
+		Want: map[string][]string{"app[3]": {"0"}, "app[4]": {"0"}}},
+	{Pkg: "pkg/ipmi", Type: "IntegrityPayload", Method: "Serialise", Shape: "specific algorithm", Bools: map[string]bool{"Wildcard": false}, Widths: map[string]int{"Algorithm": 6}, Ref: "IPMI v2.0 §13.17",
+		Want: map[string][]string{"app[3]": {"8"}, "app[4]": {"f:Algorithm[5:0]"}}},
+	{Pkg: "pkg/ipmi", Type: "ConfidentialityPayload", Method: "Serialise", Shape: "wildcard", Bools: map[string]bool{"Wildcard": true}, Widths: map[string]int{"Algorithm": 6}, Ref: "IPMI v2.0 §13.17",
+		Want: map[string][]string{"app[3]": {"0"}, "app[4]": {"0"}}},
+	{Pkg: "pkg/ipmi", Type: "ConfidentialityPayload", Method: "Serialise", Shape: "specific algorithm", Bools: map[string]bool{"Wildcard": false}, Widths: map[string]int{"Algorithm": 6}, Ref: "IPMI v2.0 §13.17",
+		Want: map[string][]string{"app[3]": {"8"}, "app[4]": {"f:Algorithm[5:0]"}}},
+	// which optional bytes follow is decided by a field of the request: per shape
+	{Pkg: "pkg/ipmi", Type: "CloseSessionReq", Method: "SerializeTo", Shape: "by session ID", Ints: map[string]int64{"ID": 1}, Ref: "IPMI v2.0 §22.19 (the handle byte is present only if the session ID is 00000000h)",
+		Want: map[string][]string{"len pre": {"4"}}},
+	{Pkg: "pkg/ipmi", Type: "CloseSessionReq", Method: "SerializeTo", Shape: "by session handle", Ints: map[string]int64{"ID": 0}, Ref: "IPMI v2.0 §22.19 (the handle byte is present only if the session ID is 00000000h)",
+		Want: map[string][]string{"len pre": {"5"}, "pre[4]": {"f:Handle[7:0]"}}},
+	{Pkg: "pkg/ipmi", Type: "GetSessionInfoReq", Method: "SerializeTo", Shape: "current / N-th active session", Ints: map[string]int64{"Index": 0}, Ref: "IPMI v2.0 §22.20 (no further bytes unless the index is FEh or FFh)",
+		Want: map[string][]string{"len pre": {"1"}}},
+	{Pkg: "pkg/ipmi", Type: "GetSessionInfoReq", Method: "SerializeTo", Shape: "by session handle", Ints: map[string]int64{"Index": 0xfe}, Ref: "IPMI v2.0 §22.20 (index FEh: session handle follows)",
+		Want: map[string][]string{"len pre": {"2"}, "pre[1]": {"f:Handle[7:0]"}}},
+	{Pkg: "pkg/ipmi", Type: "GetSessionInfoReq", Method: "SerializeTo", Shape: "by session ID", Ints: map[string]int64{"Index": 0xff}, Ref: "IPMI v2.0 §22.20 (index FFh: session ID follows, LS byte first)",
+		Want: map[string][]string{"len pre": {"5"}, "pre[1]": {"f:ID[7:0]"}, "pre[2]": {"f:ID[15:8]"}, "pre[3]": {"f:ID[23:16]"}, "pre[4]": {"f:ID[31:24]"}}},
 	{Pkg: "pkg/ipmi", Type: "ChassisControlReq", Method: "SerializeTo", Ref: "IPMI v2.0 §28.3",
 		Widths: map[string]int{"ChassisControl": 4},
 		Want:   map[string][]string{"len pre": {"1"}, "pre[0]": {"f:ChassisControl[3:0]"}}},
